@@ -484,8 +484,15 @@ func ParallelizedAccumulation(input ParallelizedAccumulationInput) (output Paral
 			return output, err
 		}
 	}
-	// Process results from each service accumulation
+	// Process results from each service accumulation in ascending service order:
+	// when two results carry an account under the same new identifier, the merge
+	// must not depend on map iteration order
+	serviceOrder := make([]types.ServiceID, 0, len(s))
 	for service_id := range s {
+		serviceOrder = append(serviceOrder, service_id)
+	}
+	sort.Slice(serviceOrder, func(i, j int) bool { return serviceOrder[i] < serviceOrder[j] })
+	for _, service_id := range serviceOrder {
 		singleOutput, ok := cache[service_id]
 		if !ok {
 			singleOutput, err = runSingleReplaceService(service_id, singleInput)
